@@ -298,3 +298,17 @@ Example C13_two_valid_scripts :
   get_opcodes ex_al ex_bl <> ex_hand /\
   report_of_script ex_a ex_b (get_opcodes ex_al ex_bl) [] 0 <> report_of_script ex_a ex_b ex_hand [] 0.
 Proof. vm_compute. repeat split; discriminate. Qed.
+
+(* the reader does not depend on the WORDING of the header: any two labels (non-empty, free of space and newline) and any
+   padding read to the same counts, lines and footer as the real ones. The correspondence check reads the bytes the
+   implementation printed with this reader and compares what was read with the structured report of the implementation's script. *)
+Theorem C13_reader_label_irrelevant : forall (ld li : bytes) (u : acc3) (name : bytes) (line : nat),
+  label_ok ld = true -> label_ok li = true -> Forall rline_wf (r_lines u) -> r_lines u <> [] -> name_ok name = true ->
+  read_report (render_lbl ld li u name line) = read_report (render_nocolor u name line).
+Proof. exact read_report_label_irrelevant. Qed.
+From Coq Require Import String.
+Theorem C13_real_labels : forall (u : acc3) (name : bytes) (line : nat),
+  render_lbl (B "Snapshot"%string) (B "Received"%string) u name line = render_nocolor u name line.
+Proof. exact render_lbl_real. Qed.
+Print Assumptions C13_reader_label_irrelevant.
+Print Assumptions C13_real_labels.
